@@ -21,7 +21,9 @@ Operands == <<
   Go("slice:int:1,2"), Go("map:is:1=a"), Go("struct:person"), Go("ptr:struct:person"), Go("nilptr:person"), Go("nilptr:slice"),
   Go("stringer:abc"), Go("num:int8:192"), Go("big:uint64:max"), Go("decimal:96"), Go("safe:1:str:abc"), Go("func"), Go("chan"),
   Go("ptr:slice:int:1"), Go("slice:int:"), Go("map:ss:"), Go("nilptr:vstringer"), Go("map:nilss"),
-  Go("struct:embnil"), Go("struct:funcs"), Go("map:vs:a=b"), Go("map:fs:nan=x,1.5=h"), Go("nilptrsafe"), Go("map:self"), Go("named:string:abc"), Go("embnilsafe"), Go("map:ptrself")
+  Go("struct:embnil"), Go("struct:funcs"), Go("map:vs:a=b"), Go("map:fs:nan=x,1.5=h"), Go("nilptrsafe"), Go("map:self"), Go("named:string:abc"), Go("embnilsafe"), Go("map:ptrself"),
+  (* maps whose key type is a defined type over string / int: beside a hash or a map of the same size keyed by the plain type *)
+  Go("map:cs:k=1"), Go("map:ns:1=a")
 >>
 NO == Len(Operands)
 IsPure(v) == v.t # "go"
